@@ -13,18 +13,22 @@ import (
 func verifC36Marshal(m proto.Message) ([]byte, error) { return m.(*pairingtypes.CacheHash).Marshal() }
 func verifC36Hash(b []byte) []byte                   { return b }
 
+// block fields take one of three concrete values (0, a one-byte and a two-byte varint): the generated Marshal sizes
+// its buffer from the value, which the encoder needs concrete
+func verifC36Block(name string) int64 { return []int64{0, 1, 200}[verif_nondet_range(name, 0, 2)] }
+
 func verifC36Request(tag string) *pairingtypes.RelayPrivateData {
 	return &pairingtypes.RelayPrivateData{
 		ConnectionType: verif_nondet_string(tag+".ConnectionType", 1),
 		ApiUrl:         verif_nondet_string(tag+".ApiUrl", 1),
 		Data:           verif_nondet_bytes(tag+".Data", 1),
-		RequestBlock:   int64(verif_nondet_byte(tag + ".RequestBlock")),
+		RequestBlock:   verifC36Block(tag + ".RequestBlock"),
 		ApiInterface:   "rest", // identity formatter: the JSON-RPC id stripping (encoding/json) is outside the encoder
 		Salt:           verif_nondet_bytes(tag+".Salt", 1),
 		Metadata:       []pairingtypes.Metadata{{Name: verif_nondet_string(tag+".Metadata[0].Name", 1), Value: verif_nondet_string(tag+".Metadata[0].Value", 1)}},
 		Addon:          verif_nondet_string(tag+".Addon", 1),
 		Extensions:     []string{verif_nondet_string(tag+".Extensions[0]", 1)},
-		SeenBlock:      int64(verif_nondet_byte(tag + ".SeenBlock")),
+		SeenBlock:      verifC36Block(tag + ".SeenBlock"),
 		RequestId:      verif_nondet_string(tag+".RequestId", 1),
 	}
 }
